@@ -376,3 +376,51 @@ pub fn explore(cfg: &Cfg, depth: usize, fault_depth: usize, keep: &dyn Fn(&str) 
     }
     s
 }
+
+/// FileSystem::new through the facade with one storage fault at every device call of the mount
+pub fn mount_faults(cfg: &Cfg) -> Vec<(String, String)> {
+    let mut out: Vec<(String, String)> = Vec::new();
+    let mut n = 0;
+    {
+        let st = Rc::new(RefCell::new(DevState::new(cfg.base.clone())));
+        st.borrow_mut().arm(None, Some(2_000_000));
+        let dev = StdIoWrapper::new(StdDev { inner: MemDev::new(st.clone()) });
+        let r = sess::guarded(|| FileSystem::<StdIoWrapper<StdDev>>::new(dev, FsOptions::new()).map(drop).is_ok());
+        if r == Ok(true) {
+            n = st.borrow().calls;
+        } else {
+            out.push(("std-io/machinery/mount".into(), format!("fault-free mount failed: {r:?}")));
+        }
+    }
+    for k in 1..=n {
+        let id = 0x00D8_0000 + k as u32;
+        let st = Rc::new(RefCell::new(DevState::new(cfg.base.clone())));
+        st.borrow_mut().arm(Some((k, id)), Some(2_000_000));
+        let dev = StdIoWrapper::new(StdDev { inner: MemDev::new(st.clone()) });
+        let r = sess::guarded(|| match FileSystem::<StdIoWrapper<StdDev>>::new(dev, FsOptions::new()) {
+            Ok(fs) => {
+                drop(fs);
+                None
+            }
+            Err(fatfs::Error::Io(e)) => Some((Some(e.kind()), e.get_ref().and_then(|p| p.downcast_ref::<Payload>()).map(|p| p.0), format!("{e:?}"))),
+            Err(e) => Some((None, None, format!("{e:?}"))),
+        });
+        let fired = st.borrow().fired;
+        let Some(fd) = fired else { continue };
+        if fd.in_drop {
+            continue;
+        }
+        let v = match r {
+            Err(p) => Some(("std-io/panic/mount".to_string(), p)),
+            Ok(None) => Some(("std-io/storage-error-swallowed/mount".to_string(), "mount returned Ok".to_string())),
+            Ok(Some((kind, payload, dbg))) if kind != Some(kind_for(id)) || payload != Some(id) => Some(("std-io/storage-error-not-passed-through/mount".to_string(), format!("the caller got {dbg}"))),
+            Ok(Some(_)) => None,
+        };
+        if let Some((sig, msg)) = v {
+            if !out.iter().any(|(s, _)| *s == sig) {
+                out.push((sig, format!("mount: device {:?} call {k}/{n} failed with kind {:?} payload {id:#x}: {msg}", fd.kind, kind_for(id))));
+            }
+        }
+    }
+    out
+}
